@@ -193,3 +193,27 @@ M('c19-find-reads-tables-into-locals-first', 'C19', 'R1', 'falcon/routing/compil
         node: Optional[CompiledRouterNode] = self._find(
             path, return_values, self._patterns, self._converters, params
         )""", also=('C01',))
+
+# ---- wave 4
+M('c19-compile-clears-tables-in-place', 'C19', 'R6', 'falcon/routing/compiled.py',
+  """        self._return_values = []
+        self._patterns = []
+        self._converters = []
+
+        self._ast = _CxParent()
+""", """        self._return_values.clear()
+        self._patterns.clear()
+        self._converters.clear()
+
+        self._ast = _CxParent()
+""", also=('C01',))
+M('c19-compile-slice-resets-one-table', 'C19', 'R6', 'falcon/routing/compiled.py',
+  """        self._patterns = []
+        self._converters = []
+
+        self._ast = _CxParent()
+""", """        del self._patterns[:]
+        self._converters = []
+
+        self._ast = _CxParent()
+""", also=('C01',))
